@@ -106,18 +106,22 @@ def search(run, info):
         t = tag.split(":")[0]
         run.count(text, True, "%s:%s" % (t, "canonical" if si == 0 else "respelled"))
         fam[t] = fam.get(t, 0) + 1
+        # a recorded finding the unit exercises explains one kind of difference; everything else must still be faithful, so the
+        # comparison is repeated without that field -- in whichever order the differences come up
         d = compare(tree, r)
-        if d and KNOWN_SUBRANGE_DEFAULT in known and KNOWN_SUBRANGE_DEFAULT in known_keys and "StructureElementDeclaration: fields ['default'" in d:
-            run.known_finding(KNOWN_SUBRANGE_DEFAULT, "the default of a subrange structure element (m : UINT (0..3) := 1;) is not kept in the library")
-            tree = strip_default(tree)
+        for _ in range(4):
+            if not d:
+                break
+            if KNOWN_SUBRANGE_DEFAULT in known and KNOWN_SUBRANGE_DEFAULT in known_keys and "StructureElementDeclaration: fields ['default'" in d:
+                run.known_finding(KNOWN_SUBRANGE_DEFAULT, "the default of a subrange structure element (m : UINT (0..3) := 1;) is not kept in the library")
+                tree = strip_default(tree)
+            elif KNOWN_STRUCT_INIT in known and KNOWN_STRUCT_INIT in known_keys and "StructureInitializationDeclaration: fields ['base_type_name'" in d:
+                run.known_finding(KNOWN_STRUCT_INIT, "the base type of a structure-initialization type declaration (T : Base := (a := 1);) is not kept in the library")
+                tree = strip_base(tree)
+            else:
+                break
             d = compare(tree, r)
         if d:
-            if KNOWN_STRUCT_INIT in known and KNOWN_STRUCT_INIT in known_keys and "StructureInitializationDeclaration: fields ['base_type_name'" in d:
-                run.known_finding(KNOWN_STRUCT_INIT, "the base type of a structure-initialization type declaration (T : Base := (a := 1);) is not kept in the library")
-                # everything else in the unit must still be faithful: compare again with that one field removed
-                d = compare(strip_base(tree), r)
-                if not d:
-                    continue
             run.violation("impl-violates-property", "the parsed library differs from the source (%s, %s spelling): %s" % (
                 tag, "canonical" if si == 0 else "random", d[-300:]), {"input": {"text": text}, "family": tag, "difference": d[-600:]})
         if (ii * 7 + si) % 400 == 0:
